@@ -198,6 +198,8 @@ func inputLetters(rec bool) func(w *drv.World) []string {
 			// it ends its segment and is read through the mmap reader once the next publish has rolled over
 			if w.M.Next < 3 {
 				ls = append(ls, "P:0/1/L70000")
+				// a batch whose second message is above the 64 MiB limit is rejected as a whole
+				ls = append(ls, "P:0/1/u,1/1/H")
 			}
 		}
 		ls = append(ls, singleDeletes(w)...)
@@ -394,6 +396,11 @@ func versionLetters(w *drv.World) []string {
 	return ls
 }
 
+func versionLettersMid(w *drv.World) []string {
+	ls := pubs(w, 8, 1, 2)
+	return append(ls, versionLetters(w)[len(pubs(w, 6, 1, 2)):]...)
+}
+
 // backup (C20)
 func backupLetters(w *drv.World) []string {
 	nb := countKind(w, "Bk")
@@ -409,9 +416,9 @@ func backupLetters(w *drv.World) []string {
 		ls = pubs(w, 8, 0, 1, 2)
 	}
 	if nb < 3 {
-		ls = append(ls, "Bk:n", "Bk:pn")
+		ls = append(ls, "Bk:n", "Bk:pn", "Bk:fn", "Bk:fxn", "Bk:rn", "Bk:rxn")
 		if nb > 0 && w.BkClean {
-			ls = append(ls, "Bk:s", "Bk:ps")
+			ls = append(ls, "Bk:s", "Bk:ps", "Bk:fxs", "Bk:rxs")
 		}
 	}
 	return dedupe(ls)
@@ -486,6 +493,18 @@ func init() {
 	Register(&Family{
 		Name: "versions", Charge: "C17", Cfgs: append(allIdx(1), allIdx(2)...), Letters: versionLetters,
 		Depth: map[string]int{"quick": 5, "thorough": 6}, Obs: drv.ObsAll &^ drv.ObsTrim, KeySet: []int{0, 1},
+		Before: func(w *drv.World) any { return [2]any{w.SnapVersions(), w.Cfg.Keep} },
+		After: func(w *drv.World, letter string, before any) {
+			b := before.([2]any)
+			w.CheckVersionsAfter(letter, b[0].(drv.VerSnap), b[1].(bool))
+		},
+	})
+	// the same from a three-segment log: mixed-version logs whose first and last segment were
+	// converted (delete in the oldest, rollover) while the middle one was not
+	Register(&Family{
+		Name: "versions-mid", Charge: "C17", Cfgs: []drv.Cfg{withVer(cfgBoth, 1), cfgBoth, withVer(cfgNone, 1)}, Letters: versionLettersMid,
+		Prefix: []string{"P:0/1/u,1/1/u", "P:0/1/u,1/1/u", "P:0/1/u,1/1/u"},
+		Depth:  map[string]int{"quick": 4, "thorough": 5}, Obs: drv.ObsAll &^ drv.ObsTrim, KeySet: []int{0, 1},
 		Before: func(w *drv.World) any { return [2]any{w.SnapVersions(), w.Cfg.Keep} },
 		After: func(w *drv.World, letter string, before any) {
 			b := before.([2]any)
